@@ -9,7 +9,7 @@ from harness import gridprobes as G
 
 PROP = "C05"
 TARGETS = ["IbicusModel.Props.C05"]
-GEN = []
+GEN = ["GridDispatch"]
 
 SHAPES = [(1, 1), (1, 4), (4, 1), (2, 3), (3, 2), (2, 2), (1, 2), (3, 1), (3, 3)]
 DTYPES = ["f8", "f4", "i8", "mixed"]
@@ -126,6 +126,11 @@ def run(tier, res, force_search=False):
         "the starmap contract is *derived* from that model (Props.C05.starmap_contract), that the runtime behaves like the model is trusted and exercised by the tier-B runs",
         "numpy basic-slice assignment output[:, i, j] = result: same length, length-1 or scalar is broadcast, anything else raises ValueError (Model.Grid.colOf)",
         "np.ndindex is C-order (Model.Grid.ndindex); checked against numpy on every run",
+        "tier A (translator/extract_griddispatch.py): the four call sites of Debiaser.apply / DeltaChange.apply and the statements of the catch wrapper and the two "
+        "map functions are regenerated from the source as data (Gen/GridDispatch.lean) and proved equal to Model/GridDispatch.lean; Model.GridDispatch.interp is "
+        "my reading of a call site's argument list as a call of Model.Grid.applyGrid",
+        "multiprocessing internals used as the tie of the chunk model: Pool._get_tasks (chunking) and MapResult._chunksize (default chunk size) of the running "
+        "interpreter; one pool task = (func, chunk) pickled together, so every chunk runs on its own copy of the instance (Model.Grid.chunkTask) — exercised by the counting probe",
     ]
     res.assumptions = [
         "process start, pickling of the bound apply_location and of the column slices, and per-worker RNG state are runtime behaviour and are not modelled "
@@ -134,6 +139,13 @@ def run(tier, res, force_search=False):
         "apply_location returns a 1-d series (a 0-d result is covered only as the failsafe scalar NaN)",
         "the three inputs have the same spatial shape (enforced by _check_inputs_and_convert_if_possible, property C14)",
         "hook IBICUS_VERIF=1 NaN-fills the freshly allocated output so an unwritten column would be observable",
+        "RUNTIME-ONLY clauses (decided by the oracle on the real code, no theorem — the value-level model cannot exhibit them): output dtype = dtype of the "
+        "converted cm_future (numpy dtype conversion); independence of the memory layout and of argument aliasing (numpy views: model arrays are values, "
+        "a column is a copy by construction); pickle round trip of the debiaser leaves apply_location unchanged (object identity / pickling); state outside "
+        "the instance (class attributes, module globals, numpy's global generator) — the instance-state model (StCell) covers state carried by the instance "
+        "only, whose chunk-wise copying it reproduces exactly (counting probe); float rounding differences between a strided view and a contiguous copy of a column",
+        "instance state: the theorems pure_instance_* assume PureSt (apply_location leaves the instance unchanged); that the built-in debiasers are pure is "
+        "checked on the real code (vars(instance) before/after apply, fresh-instance reference) and by C12's write-site tie, not proved here",
     ]
     lean_ok = C.lean_phase(res, PROP, GEN, TARGETS)
 
@@ -314,6 +326,8 @@ def run(tier, res, force_search=False):
             oracle(case, mk(), *ref_args, rs, problems, ref_deb=mk)
             res.count(("alias", name, alias, nx, ny, T), True, sample=case if name == "pr/ScaledDistributionMapping" and alias.startswith("cm_future") else None)
 
+    late_lines, late_expect = [], []  # second driver batch: keyword arguments, chunking, instance state
+
     # ---- kwargs reach apply_location in every branch (both probes, serial and parallel) — always, not by chance
     for kind in ("deb", "dc"):
         nprs = np.random.RandomState(rng.randint(0, 2**31 - 1))
@@ -325,6 +339,13 @@ def run(tier, res, force_search=False):
         deb = G.make(kind)
         rs = [("serial+kw", G.run_apply(deb, obs, hist, fut, **kw))] + [(f"parallel/{p}+kw", G.run_apply(deb, obs, hist, fut, parallel=True, nproc=p, **kw)) for p in (1, 2)]
         oracle(case, deb, obs, hist, fut, rs, problems, kw)
+        late_lines.append(G.grid_line(kind, "serial", False, obs, hist, fut, []).replace("grid ", "gridkw ", 1) + f" {kw['shift']}")
+        late_expect.append(("gridkw-serial", case, G.canon(rs[0][1])))
+        for label, r in rs[1:]:
+            sched = list(range(nx * ny))
+            rng.shuffle(sched)
+            late_lines.append(G.grid_line(kind, "par", False, obs, hist, fut, sched).replace("grid ", "gridkw ", 1) + f" {kw['shift']}")
+            late_expect.append(("gridkw-" + label, {**case, "sched": sched}, G.canon(r)))
         diff = G.pickle_roundtrip_differs(lambda: G.make(kind), obs[:, 0, 0], hist[:, 0, 0], fut[:, 0, 0], **kw)
         if diff:
             problems.append((f"pickle round trip of the debiaser changes apply_location at cell (0,0): {diff}", {**case, **G.pack(obs, hist, fut)}))
@@ -385,6 +406,49 @@ def run(tier, res, force_search=False):
         if len(cols) == 2 and not np.array_equal(cols["wet-first"], cols["dry-first"], equal_nan=True):
             problems.append((f"{name}: the column of the unchanged last cell differs when only the first cell's data changes (wet -> all-dry)",
                              {**case, "variant": "wet-first vs dry-first", **G.pack(obs, hist, fut), **G.pack(o2, h2, fut, "other_"), "cell": [nx - 1, ny - 1]}))
+
+    # ---- the pool's chunking and an instance with state (model: chunksOf / defaultChunksize / applySerialSt / applyParallelSt)
+    for k_, n_ in [(1, 1), (1, 5), (2, 5), (3, 7), (3, 9), (4, 4), (5, 3), (7, 20)]:
+        late_lines.append(f"chunks {k_} {n_}")
+        late_expect.append(("chunks", {"k": k_, "n": n_}, C.ilist(G.real_chunks(k_, n_))))
+    chunksize = {}
+    for p_ in (1, 2, 3, 5):
+        ns = list(range(0, 14)) + [16, 17, 20, 21, 40, 41]
+        chunksize[p_] = G.real_default_chunksizes(p_, ns)
+        for n_, cs in chunksize[p_].items():
+            late_lines.append(f"defchunk {n_} {p_}")
+            late_expect.append(("defchunk", {"n": n_, "p": p_}, str(cs)))
+    for nx, ny, p_ in [(3, 3, 1), (3, 3, 2), (2, 3, 1), (1, 3, 5), (3, 4, 1)][: (3 if tier == "quick" else 5)]:
+        n_ = nx * ny
+        nprs = np.random.RandomState(rng.randint(0, 2**31 - 1))
+        To, Th, Tf = rng.randint(1, 4), rng.randint(1, 4), rng.randint(1, 4)
+        for fs in (False, True):
+            obs, hist, fut = (G.rand_data(nprs, T, nx, ny, np.float64) for T in (To, Th, Tf))
+            if fs:
+                fut[0, rng.randrange(nx), rng.randrange(ny)] = G.M_ERR
+            s0 = rng.choice([0, 3])
+            kch = chunksize[p_].get(n_) or G.real_default_chunksizes(p_, [n_])[n_]
+            case = dict(kind="deb", what="counting-probe", nx=nx, ny=ny, To=To, Th=Th, Tf=Tf, failsafe=fs, s0=s0, nr_processes=p_, chunksize=kch)
+            for mode in ("serial", "par"):
+                deb = G.CountingProbe(calls=s0)
+                r = G.run_apply(deb, obs, hist, fut, parallel=(mode == "par"), nproc=p_, failsafe=fs)
+                nch = len(G.real_chunks(kch, n_))
+                sched = list(range(nch))
+                rng.shuffle(sched)
+                late_lines.append(f"gridst {mode} {int(fs)} {nx} {ny} {To} {Th} {Tf} {C.ilist(obs.ravel())} {C.ilist(hist.ravel())} {C.ilist(fut.ravel())} "
+                                  f"{s0} {kch} {C.ilist(sched) if mode == 'par' else '-'}")
+                late_expect.append(("gridst-" + mode, {**case, "sched": sched}, G.canon(r) + (f" state {deb.calls}" if r[0] == "ok" else "")))
+                res.count(("state", mode, nx, ny, p_, fs, s0), True, sample={**case, "mode": mode, "result": (G.canon(r) + f" state {deb.calls}")[:90]} if (nx, ny, p_) == (3, 3, 1) and not fs else None)
+    try:
+        out2 = C.run_driver("DrvGrid", late_lines)
+        for (what, case, exp), got in zip(late_expect, out2):
+            res.cov["traces_validated_against_impl"] += 1
+            if exp != got:
+                mismatches.append({"op": what, "case": case, "impl": exp[:300], "model": got[:300]})
+    except (C.DriverError, Exception) as ex:  # noqa: BLE001
+        mismatches.append({"op": "driver", "case": {}, "impl": "", "model": f"{type(ex).__name__}: {str(ex)[:400]}"})
+    if mismatches and not any("correspondence DrvGrid" in t for t in res.tie_broken):
+        res.tie_broken.append(f"correspondence DrvGrid: {len(mismatches)} mismatches, first: {mismatches[0]}")
 
     res.extra["start_method"] = G.start_method()
     # ---- verdict
